@@ -139,6 +139,11 @@ def install(module, names=("max", "min", "float", "int", "math")):
             continue
         module.__dict__[n] = table[n]
         done.append(n)
+    # `from math import sqrt` style imports
+    for fname in ("sqrt", "acos", "sin", "cos"):
+        if module.__dict__.get(fname) is getattr(_math, fname):
+            module.__dict__[fname] = getattr(MATH, fname)
+            done.append(fname)
     _installed[module.__name__] = done
     return done
 
